@@ -178,6 +178,22 @@ def run(ctx):
         else:
             files = {"/w/m.djinni": {"bytes_hex": bytes(raw).hex()}}
         todo.append({"files": files, "root": "/w/m.djinni", "stream": "bytes", "mut": "text-bad-byte"})
+    # unusual names in @import / @extern directives (the lexer accepts any character but a quote): the file is not
+    # found — or is, under its odd name — and nothing else happens; links that lead nowhere are not files
+    odd = ["a\x00b.djinni", "\x00", "x" * 300 + ".djinni", "dir/" + "y" * 260, "~/x.djinni", "$HOME/x.djinni", "a\\b.djinni", "a b.djinni",
+           "ä/ö.djinni", "..", ".", "", "/", "//x", "a/./b/../c.djinni", "loop.djinni", "dangling.djinni", "loopdir/x.djinni", "😀.djinni",
+           "a\tb.djinni", "%41.djinni", "file:///w/m.djinni", "C:\\x.djinni"]
+    for i, lit in enumerate(odd):
+        for kw in ("@import", "@extern"):
+            if '"' in lit or "\n" in lit:
+                continue
+            files = {"/w/m.djinni": f'{kw} "{lit}"\nr = record {{ a: i32; }}', "/w/loop.djinni": {"symlink": "loop.djinni"},
+                     "/w/dangling.djinni": {"symlink": "nowhere/else.djinni"}, "/w/loopdir": {"symlink": "loopdir"},
+                     "/w/a b.djinni": "s = enum { k; }", "/w/ä/ö.djinni": "t = enum { k; }"}
+            if kw == "@extern":
+                files["/w/a b.djinni"] = {"ext": [{"name": "s", "ns": [], "prim": "enum"}]}
+                files["/w/ä/ö.djinni"] = {"ext": [{"name": "t", "ns": [], "prim": "enum"}]}
+            todo.append({"files": files, "root": "/w/m.djinni", "stream": "imports", "mut": "odd-name", "configured": i % 2 == 0})
     # @extern files that are not text / not valid external-type YAML
     for i in range(ctx.n(8, 60)):
         r = random.Random(f"{ctx.seed}/c06/extern/{i}")
